@@ -233,6 +233,14 @@ def run(ctx):
                         c1 = [c for c in o1.calls if strip_generics(cname(c)).endswith('find_or_build')]
                         if c0 and c1:
                             ok = c0[0].get('substs', [''])[0] == '()' and c1[0].get('substs', [''])[0] == 'T'
+                    # ... or `vec![null]` followed by `push(inner)`: the first element is still null, T comes after it
+                    if 'assign' in s and s['rv']['k'] == 'agg' and s['rv'].get('agg') == 'array' and len(s['rv']['ops']) == 1:
+                        c0 = [c for c in origin(b, s['rv']['ops'][0]).calls if strip_generics(cname(c)).endswith('find_or_build')]
+                        if c0 and c0[0].get('substs', [''])[0] == '()':
+                            pushes = [(pb, pt) for pb, pt in b.calls() if not b.is_cleanup(pb) and strip_generics(cname(pt)).endswith(('Vec::push', 'Vec::<T, A>::push'))]
+                            pushed = [[c for c in origin(b, pt['args'][1]).calls if strip_generics(cname(c)).endswith('find_or_build')] for pb, pt in pushes]
+                            if len(pushes) == 1 and b.dominates(bb, pushes[0][0]) and pushed[0] and pushed[0][0].get('substs', [''])[0] == 'T':
+                                ok = True
     # ... unless T's own node is a union (an enum of newtype variants): "Unions may not immediately contain other unions",
     # so the branches of T's union are spliced in after null - Option::append_schema looks at the kind of the node it
     # built for T and has an arm for Union
